@@ -125,6 +125,10 @@ def warp (st : FSt) (targetType : String) : String × String :=
     match st.clzs.find? (fun c => Gen.JavaFull.samePackageMatches c st.pkg pure) with
     | some c => (c, "same package")
     | none =>
+    -- the package of an on-demand import (`import p.*;` is recorded as `p`) that holds a type of that name
+    match st.imports.findSome? (fun imp => st.clzs.find? (fun c => Gen.JavaFull.onDemandMatches c imp pure)) with
+    | some c => (c, "same package")
+    | none =>
     match st.clzs.find? (fun c => Gen.JavaFull.projectTypeMatches c pure) with
     | some c => (c, "same package")
     | none =>
